@@ -70,6 +70,9 @@ def corpus():
     # a parallel step declared through `processes`; quantities crossing the pipe
     base.append({'kind': 'shutdown', 'ends': 1, 'last_forced': True, 'kill': None, 'kill_at': 0,
                  'par_ts': 1, 'run': [3], 'legacy_step': True, 'units': True, 'override': True})
+    # the same with a legacy deriver: a Process subclass that overrides is_step()
+    base.append({'kind': 'shutdown', 'ends': 1, 'last_forced': True, 'kill': None, 'kill_at': 0,
+                 'par_ts': 1, 'run': [3], 'legacy_step': True, 'legacy_kind': 'process'})
     base.append({'kind': 'shutdown', 'ends': 0, 'last_forced': False, 'kill': 'divide', 'kill_at': 2,
                  'par_ts': 3, 'run': [4]})
     c = sched_prop.scheduler_corpus()[7]
@@ -104,6 +107,7 @@ def generate(rng, n, tier):
                         'kill_at': rng.choice([1, 2, 3]), 'par_ts': rng.choice([1, 2, 3, 4, 5]),
                         'sleep': rng.choice([0.0, 0.0, 0.3]), 'killer_first': rng.random() < 0.5,
                         'bystander': rng.random() < 0.4, 'legacy_step': rng.random() < 0.3,
+                        'legacy_kind': rng.choice(['step', 'process']),
                         'units': rng.random() < 0.3, 'second_change': rng.random() < 0.4,
                         'override': rng.random() < 0.3,
                         'run': [rng.choice([2, 3, 4, 5]) for _ in range(rng.choice([1, 2]))]})
@@ -126,7 +130,7 @@ def _children_left():
 
 def _shutdown_run(case, obs):
     from vivarium.core.engine import Engine
-    from harness.probes import TickProcess, Killer, TickStep, UnitTick
+    from harness.probes import TickProcess, Killer, TickStep, UnitTick, LegacyTick
     eng = None
     try:
         par = TickProcess({'ts': case['par_ts'], '_parallel': True, 'sleep': case.get('sleep', 0.0)})
@@ -157,7 +161,9 @@ def _shutdown_run(case, obs):
             topology['bystander'] = {'vars': ('vars',)}
         if case.get('legacy_step'):
             # a parallel step declared through the `processes` dictionary (the legacy placement of derivers)
-            processes['legacy'] = TickStep({'_parallel': True, 'var': 'ls'})
+            # (either a Step subclass or a Process subclass that overrides is_step(): a legacy deriver)
+            cls = LegacyTick if case.get('legacy_kind') == 'process' else TickStep
+            processes['legacy'] = cls({'_parallel': True, 'var': 'ls'})
             topology['legacy'] = {'vars': ('vars',)}
         if case.get('override'):
             # a parallel process carrying a schema override (`_schema`: its variable is `set`, not accumulated)
@@ -191,6 +197,8 @@ def _shutdown_run(case, obs):
         if case['kill'] == 'move':
             moved = (eng.state.get_value().get('agents2') or {}).get('cell')
             obs['moved_x'] = None if moved is None else moved['vars']['x']
+        if case.get('legacy_step'):
+            obs['ls'] = eng.state.get_value()['vars']['ls']
         if case.get('override'):
             obs['ov'] = eng.state.get_value()['vars']['ov']
         if case.get('units'):
@@ -284,6 +292,11 @@ def oracle(case, impl):
                 and o.get('mass') != [2.0 * o['gt'], 'femtogram']:
             fails.append(f'transparent: a parallel and a serial process each add 1 fg per time unit; after '
                          f'{o["gt"]} the variable holds {o.get("mass")}')
+        if case.get('legacy_step') and not o.get('raised') and case['last_forced'] \
+                and o.get('ls') != 1 + int(o.get('gt', 0)):
+            fails.append(f'transparent: a parallel step declared among the processes runs once per step phase (at '
+                         f'construction and after every batch, one per time unit): after {o.get("gt")} time units its '
+                         f'counter reads {o.get("ls")}, expected {1 + int(o.get("gt", 0))}')
         if case.get('override') and not o.get('raised') and o.get('gt', 0) >= 1 and o.get('ov') != 1:
             fails.append(f'transparent: the schema override of a parallel process (updater `set`) is not in force: its '
                          f'variable holds {o.get("ov")} after {o.get("gt")} time units, `set` leaves 1')
@@ -354,3 +367,9 @@ _add_family(globals(), _ap, 'adaptpar', _ap.oracle, share=0.1)
 # views rebuilt while a port-less parallel process is in flight)
 from harness import parstruct as _ps                    # noqa: E402
 _add_family(globals(), _ps, 'parstruct', _ps.oracle, share=0.1)
+
+
+# legacy derivers (Process subclasses that say they are steps) among the processes, serial or parallel
+from harness import legacypar as _lp                    # noqa: E402
+from harness.mixins import add_family as _add_family    # noqa: E402,F811
+_add_family(globals(), _lp, 'legacypar', _lp.oracle, share=0.04)
